@@ -59,7 +59,32 @@ def r3(a, f):
     return np.stack([t + d, t * d, z - t], axis=3)
 
 
-USER = {"R1": (R1, ["mix"], r1), "R3": (R3, ["r_sum", "r_prod", "r_diff"], r3)}
+R0 = '''def recipe(field_indexes, box_array):
+    return box_array[:, :, :, field_indexes["Z"]] * -1.5
+'''
+
+
+def r0(a, f):
+    return (a[..., f["Z"]] * -1.5)[..., None]
+
+
+def callable_recipe(field_indexes, box_array):
+    """
+    c_one c_two
+    """
+    import numpy
+    t = box_array[:, :, :, field_indexes["temp"]]
+    z = box_array[:, :, :, field_indexes["Z"]]
+    return numpy.stack([t - z, z * 3.0], axis=3)
+
+
+def rcall(a, f):
+    return np.stack([a[..., f["temp"]] - a[..., f["Z"]], a[..., f["Z"]] * 3.0], axis=3)
+
+
+# R0: no docstring -> the documented default name; RC: the recipe is passed as a callable, not as a file
+USER = {"R1": (R1, ["mix"], r1), "R3": (R3, ["r_sum", "r_prod", "r_diff"], r3), "R0": (R0, ["user_defined"], r0),
+        "RC": (None, ["c_one", "c_two"], rcall)}
 KEPT = [None, "Z", "density Z", "Z temp", "Z nope density"]
 SPECIES = ["H2", "H", "O", "O2", "OH", "H2O", "HO2", "CH2", "CH2(S)", "CH3", "CH4", "CO", "CO2", "HCO", "CH2O", "CH3O",
            "C2H4", "C2H5", "C2H6", "N2", "AR"]
@@ -67,7 +92,7 @@ MECH = os.path.join(os.environ.get("KV_ASSETS", "/repo/test_assets"), "drm19.yam
 
 
 def bounds(tier):
-    return {"user_recipes": ["1 component", "3 components", "solution-array recipe"], "builtins": ["HRR", "ENT", "SRi", "SDi", "RRi"],
+    return {"user_recipes": ["1 component", "3 components", "no docstring (default name)", "passed as a callable", "solution-array recipe (1 and 2 components)"], "builtins": ["HRR", "ENT", "SRi", "SDi", "RRi"],
             "kept": KEPT, "modes": ["serial", "parallel x task orders (<= 4 files)"]}
 
 
@@ -183,10 +208,13 @@ def run_user(case, workdir, rec):
     before = tree_digest(path)
     k = 0
     for rname, (src, new_names, fn) in sorted(USER.items()):
-        rpath = os.path.join(workdir, rname + ".py")
-        with open(rpath, "w") as f:
-            f.write(src)
-        keeps = KEPT if case["full"] else [None, "Z temp"]
+        if src is None:
+            rpath = callable_recipe
+        else:
+            rpath = os.path.join(workdir, rname + ".py")
+            with open(rpath, "w") as f:
+                f.write(src)
+        keeps = KEPT if (case["full"] and rname in ("R1", "R3")) else [None, "Z temp"]
         for kept in keeps:
             kept_names = [n for n in (kept.split() if kept else []) if n in names]
             for serial in (True, False):
